@@ -10,12 +10,13 @@ import OpcuaModel.Model.RecvSpec
   Specification: `Recv.Spec` — messages split into chunks, any interleaving by
   request id, aborts, any conforming numbering.
 
-  The full-strength statement is FALSE on the unchanged code: `mergeChunks`
-  starts its duplicate filter at 0 and silently drops a first chunk numbered 0
-  (`C12_finding_seq0_start`, `C12_finding_seq0_wrap`, `C12_finding_seq0_general`).
-  `C12_reassemble_partial` proves reassembly under the guard `SMsg.noDrop`, and
-  `C12_reassemble_numbered` discharges the guard for every numbering without
-  repetition that does not use 0.
+  Since the repair of C12.merge-drops-seq0 (`mergeChunks` always keeps the first
+  chunk) the property holds at full strength: `C12_reassemble` needs nothing but
+  conformance — limits respected, per-request-id sub-streams are the messages'
+  chunk sequences, numbering as Part 6 prescribes (start anywhere, +1, wrap to
+  any value below 1024, 0 included) — for every stream shorter than one full
+  numbering cycle (4294965249 chunks).  The former counterexamples are kept as
+  regression theorems (`C12_seq0_*`).
 -/
 namespace Opcua.Props.C12
 open Opcua Opcua.Recv Opcua.Recv.Spec
@@ -53,26 +54,39 @@ theorem C12_delivered_partial (cfg : Cfg) (msgs : List SMsg) (stream : List Chun
     delivered (runOuts cfg bufs stream) = delivered (stream.map (specOut msgs)) := by
   rw [(C12_reassemble_partial cfg msgs stream bufs hfit hguard hcover hproj hfresh).1]
 
-/-- the guard holds for every message of a stream whose sequence numbers are
-    pairwise different and never 0 — in particular for every numbering that
-    does not wrap around inside the stream and does not start at 0 -/
-theorem C12_reassemble_numbered (cfg : Cfg) (msgs : List SMsg) (stream : List Chunk) (bufs : Bufs)
+/-- **Reassembly (full strength).**  Any stream a conforming peer may send:
+    messages within the limits, any interleaving, aborts, and a numbering as
+    Part 6 prescribes — any start value (0 included), +1 per chunk, wrap-around
+    to any value below 1024 (0 included) once 4294966271 is passed — over fewer
+    chunks than one full numbering cycle.  `Receive` returns chunk by chunk what
+    the specification prescribes and ends with empty buffers. -/
+theorem C12_reassemble (cfg : Cfg) (msgs : List SMsg) (stream : List Chunk) (bufs : Bufs)
     (hfit : ∀ m ∈ msgs, m.fits cfg)
-    (hnd : (stream.map (·.seq)).Nodup) (h0 : 0 ∉ stream.map (·.seq))
+    (hnum : Numbered (stream.map (·.seq))) (hlen : stream.length ≤ 4294965249)
     (hcover : ∀ c ∈ stream, ∃ m ∈ msgs, m.req = c.req)
     (hproj : ∀ m ∈ msgs, stream.filter (fun c => c.req == m.req) = m.chunks)
     (hfresh : ∀ m ∈ msgs, bufs.get m.req = []) :
-    runOuts cfg bufs stream = stream.map (specOut msgs) :=
-  (C12_reassemble_partial cfg msgs stream bufs hfit
-    (fun m hm => noDrop_of_nodup m stream (hproj m hm) hnd h0) hcover hproj hfresh).1
+    runOuts cfg bufs stream = stream.map (specOut msgs) ∧
+    (∀ m ∈ msgs, (runFinal cfg bufs stream).get m.req = []) ∧
+    (∀ r, (∀ m ∈ msgs, m.req ≠ r) → (runFinal cfg bufs stream).get r = bufs.get r) := by
+  have hnd : (stream.map (·.seq)).Nodup := numbered_nodup hnum (by simpa using hlen)
+  exact C12_reassemble_partial cfg msgs stream bufs hfit
+    (fun m hm => noDrop_of_nodup m stream (hproj m hm) hnd) hcover hproj hfresh
 
-/-- consecutive numbers from a start value ≥ 1 (what gopcua's own sender
-    produces between two wrap-arounds) are pairwise different and never 0 -/
-theorem C12_consecutive_ok (s : Nat) (hs : 1 ≤ s) (l : List Nat) (h : consecutive s l) :
-    l.Nodup ∧ 0 ∉ l := by
-  refine ⟨consecutive_nodup h, fun h0 => ?_⟩
-  have := consecutive_lb h 0 h0
-  omega
+/-- "delivered stream = messages minus aborted" for conforming streams -/
+theorem C12_delivered (cfg : Cfg) (msgs : List SMsg) (stream : List Chunk) (bufs : Bufs)
+    (hfit : ∀ m ∈ msgs, m.fits cfg)
+    (hnum : Numbered (stream.map (·.seq))) (hlen : stream.length ≤ 4294965249)
+    (hcover : ∀ c ∈ stream, ∃ m ∈ msgs, m.req = c.req)
+    (hproj : ∀ m ∈ msgs, stream.filter (fun c => c.req == m.req) = m.chunks)
+    (hfresh : ∀ m ∈ msgs, bufs.get m.req = []) :
+    delivered (runOuts cfg bufs stream) = delivered (stream.map (specOut msgs)) := by
+  rw [(C12_reassemble cfg msgs stream bufs hfit hnum hlen hcover hproj hfresh).1]
+
+/-- the bound on the length is about the numbering only: a conforming numbering
+    never repeats a number within 4294965249 chunks -/
+theorem C12_numbering_nodup (l : List Nat) (h : Numbered l) (hlen : l.length ≤ 4294965249) : l.Nodup :=
+  numbered_nodup h hlen
 
 /-- abort chunks cancel only their own request: a step for request id `c.req`
     leaves the buffer of every other id as it was (any chunk, any state) -/
@@ -80,8 +94,7 @@ theorem C12_other_ids_untouched (cfg : Cfg) (bufs : Bufs) (c : Chunk) (r : Nat) 
     (step cfg bufs c).1.get r = bufs.get r :=
   step_get_other cfg bufs c h
 
-/-! ### the finding: a first chunk numbered 0 is dropped -/
-
+/-! ### regression: the former finding C12.merge-drops-seq0 (repaired) -/
 
 /-- witness message: request 7, chunks `C seq0 "AA"`, `F seq1 "BB"` -/
 def w0 : SMsg := { req := 7, inter := [(0, [65, 65])], lastSeq := 1, last := [66, 66], abort := false }
@@ -92,46 +105,28 @@ def w1b : SMsg := { req := 7, inter := [(0, [65, 65])], lastSeq := 1, last := [6
 
 def cfg0 : Cfg := { maxChunkCount := 512, maxMessageSize := 2097152 }
 
-/-- FINDING C12.merge-drops-seq0 (start at 0): the stream is conforming —
-    numbering 0,1 is allowed, the message fits — and the specification
-    prescribes the body "AABB", but `Receive` hands "BB" to the decoder. -/
-theorem C12_finding_seq0_start :
+/-- numbering 0,1 from the start of the channel: the body "AABB" is delivered
+    (before the repair: "BB") -/
+theorem C12_seq0_start :
     Numbered (w0.chunks.map (·.seq)) ∧ w0.fits cfg0 ∧
-    specOut [w0] w0.lastChunk = .merged 7 [65, 65, 66, 66] ∧
-    runOuts cfg0 [] w0.chunks = [.cont, .merged 7 [66, 66]] ∧
-    ¬ w0.noDrop := by decide
+    runOuts cfg0 [] w0.chunks = [.cont, .merged 7 [65, 65, 66, 66]] := by decide
 
-/-- FINDING C12.merge-drops-seq0 (wrap-around): the number after 4294967295 is
-    0 (Part 6: "less than 1024"); the two-chunk message that starts there loses
-    its first chunk. -/
-theorem C12_finding_seq0_wrap :
-    Numbered ((w1a.chunks ++ w1b.chunks).map (·.seq)) ∧ w1a.fits cfg0 ∧ w1b.fits cfg0 ∧
-    (w1a.chunks ++ w1b.chunks).map (specOut [w1a, w1b]) = [.merged 6 [90, 90], .cont, .merged 7 [65, 65, 66, 66]] ∧
-    runOuts cfg0 [] (w1a.chunks ++ w1b.chunks) = [.merged 6 [90, 90], .cont, .merged 7 [66, 66]] := by decide
+/-- wrap-around 4294967295 → 0 -/
+theorem C12_seq0_wrap :
+    Numbered ((w1a.chunks ++ w1b.chunks).map (·.seq)) ∧
+    runOuts cfg0 [] (w1a.chunks ++ w1b.chunks) = [.merged 6 [90, 90], .cont, .merged 7 [65, 65, 66, 66]] := by decide
 
-/-- the defect in general: whenever a message of two or more chunks starts with
-    number 0, `mergeChunks` returns the concatenation of the *other* chunks only -/
-theorem C12_finding_seq0_general (c d : Chunk) (t : List Chunk) (h0 : c.seq = 0) :
-    mergeChunks (c :: d :: t) = mergeLoop 0 (d :: t) := by
-  simp [mergeChunks, mergeLoop, h0]
+/-- in general: the first chunk of a message is always part of the merged body -/
+theorem C12_first_chunk_kept (c d : Chunk) (t : List Chunk) :
+    mergeChunks (c :: d :: t) = c.data ++ mergeLoop c.seq (d :: t) := rfl
 
-/-- … so a non-empty first payload is lost and the result is shorter than the body -/
-theorem C12_finding_seq0_shorter (c d : Chunk) (t : List Chunk) (h0 : c.seq = 0) (hne : c.data ≠ []) :
-    (mergeChunks (c :: d :: t)).length < (allData (c :: d :: t)).length := by
-  rw [C12_finding_seq0_general c d t h0]
-  have hle : ∀ (s : Nat) (l : List Chunk), (mergeLoop s l).length ≤ (allData l).length := by
-    intro s l
-    induction l generalizing s with
-    | nil => simp [mergeLoop, allData]
-    | cons x r ih =>
-      simp only [mergeLoop, allData, List.map_cons, List.flatten_cons, List.length_append]
-      split
-      · have := ih s; simp only [allData] at this; omega
-      · have := ih x.seq; simp only [allData, List.length_append] at this ⊢; omega
-  have h1 := hle 0 (d :: t)
-  have h2 : 0 < c.data.length := List.length_pos_iff.mpr hne
-  simp only [allData, List.map_cons, List.flatten_cons, List.length_append] at h1 ⊢
-  omega
+/-- what the duplicate filter still does (and a conforming peer never triggers):
+    a chunk repeating its predecessor's number is skipped -/
+theorem C12_repeated_number_skipped (c d : Chunk) (t : List Chunk) (h : d.seq = c.seq) :
+    mergeChunks (c :: d :: t) = mergeChunks (c :: t) := by
+  cases t with
+  | nil => simp [mergeChunks, mergeLoop, h]
+  | cons e r => simp [mergeChunks, mergeLoop, h]
 
 /-! ### non-vacuity: interleaved messages, an abort, numbering across a wrap to 5 -/
 
@@ -143,7 +138,7 @@ def estream : List Chunk :=
    ⟨ctA, 6, 2, [1, 0, 0x80, 0x80, 0, 0, 0, 0]⟩, ⟨ctF, 7, 1, [101, 102]⟩, ⟨ctF, 8, 3, [115, 105, 110, 103, 108, 101]⟩]
 
 example : Numbered (estream.map (·.seq)) ∧
-    (∀ m ∈ [e1, e2, e3], m.fits cfg0 ∧ m.noDrop ∧ estream.filter (fun c => c.req == m.req) = m.chunks) ∧
+    (∀ m ∈ [e1, e2, e3], m.fits cfg0 ∧ estream.filter (fun c => c.req == m.req) = m.chunks) ∧
     runOuts cfg0 [] estream =
       [.cont, .cont, .cont, .abort 2 0x80800001, .merged 1 [97, 98, 99, 100, 101, 102], .merged 3 [115, 105, 110, 103, 108, 101]] ∧
     runFinal cfg0 [] estream = [] := by decide
